@@ -452,7 +452,17 @@ impl Writer {
     ) -> Result<KeyDirEntry, Error> {
         // Append log entry
         let datafile_entry = DataFileEntry { tstamp, key, value };
-        let index = self.writer.append(&datafile_entry)?;
+        let index = match self.writer.append(&datafile_entry) {
+            Ok(index) => index,
+            Err(e) => {
+                // A failed append may leave a partially written entry in the active file (or in
+                // the writer's buffer, which is written out when the writer is dropped). Entries
+                // appended after it would be unreadable on the next startup scan, which stops
+                // at the first incomplete entry, so stop using this file.
+                self.new_active_datafile(self.active_fileid + 1)?;
+                return Err(e.into());
+            }
+        };
         #[cfg(feature = "verif")]
         crate::verif::point("write.appended");
         // Sync immediately if the strategy is "always"
